@@ -12,6 +12,7 @@ open Backend Spsc
 theorem newFlagFalse_closedB : ClosedB (fun x => x.newFlag = false) where
   siteCnt := fun _ _ h => h
   emitInj := fun _ _ _ _ _ h => h
+  note := fun _ h => h
   clock := fun _ _ h => h
   lastFlush := fun _ _ h => h
   gone := fun _ h => h
